@@ -74,9 +74,16 @@ def check(report, tier, seed):
         wrong_ext = os.path.join(d, "prog.txt")
         open(wrong_ext, "w").write(gen.yo_line(0, b"\x30\xf4") + "\n")
         bad_yo = os.path.join(d, "bad.yo")
-        open(bad_yo, "wb").write(rng.choice([b"0x000: zz | x\n", b"", b"0x000: 30f4 | short\n", b"\xff\xfe | \n"]))
-        invalid_utf8_yo = os.path.join(d, "latin.yo")
-        open(invalid_utf8_yo, "wb").write(b"0x000: 00                   | caf\xe9\n")
+        good_line = (gen.yo_line(0, b"\x30\xf4") + "\n").encode()
+        open(bad_yo, "wb").write(rng.choice([b"0x000: zz | x\n", b"", b"0x000: 30f4 | short\n", b"\xff\xfe | \n",
+                                             good_line + b"0x002: zz | x\n", good_line * 3 + b"0x00: 00 | x\n" + good_line]))
+        # a line that is not valid UTF-8 makes the image unloadable wherever it stands: first, last, in the middle
+        bad_line = b"0x008: 00                   | caf\xe9\n"
+        latin = {}
+        for j, content in enumerate([bad_line, good_line + bad_line, good_line + bad_line + good_line,
+                                     good_line * 4 + b"# Ren\xe9\n", good_line + b"\xff\n" + good_line]):
+            latin[os.path.join(d, "latin%d.yo" % j)] = content
+            open(os.path.join(d, "latin%d.yo" % j), "wb").write(content)
         # names around the '.yo' rule, all with loadable contents: the rule is "ends in .yo", case-sensitively
         named = {}
         for nm in ("PROG.YO", "prog.Yo", "prog.yO", ".yo", "progyo", "prog.yo.bak", "prog.yoo", "prog.y", "prog.yo ", "é.yo", "prog..yo"):
@@ -92,7 +99,7 @@ def check(report, tier, seed):
             if yk == "named":
                 yo_path = named[rng.choice(sorted(named))]
             else:
-                yo_path = {"good": good_yo, "missing": os.path.join(d, "nothere.yo"), "wrongext": wrong_ext, "bad": bad_yo, "latin": invalid_utf8_yo}[yk]
+                yo_path = {"good": good_yo, "missing": os.path.join(d, "nothere.yo"), "wrongext": wrong_ext, "bad": bad_yo, "latin": rng.choice(sorted(latin))}[yk]
             nfree = rng.choice([0, 1, 2, 2, 3, 3, 3, 4])
             t = rng.choice(TIMEOUTS)
             if hk == "forever" and t in ("9999", "4294967295", None):
@@ -117,7 +124,8 @@ def check(report, tier, seed):
             # what the positionals really are (the terminator and a lone "-" can shift them)
             hcl_kind = {files[k]: k[:-4] for k in files}
             hk = hcl_kind.get(free[0], "missing") if free else hk
-            yo_kind = {good_yo: "good", wrong_ext: "wrongext", bad_yo: "bad", invalid_utf8_yo: "latin"}
+            yo_kind = {good_yo: "good", wrong_ext: "wrongext", bad_yo: "bad"}
+            yo_kind.update({pth: "latin" for pth in latin})
             yo_kind.update({v: "good" for v in named.values()})
             yk2 = yo_kind.get(free[1], "missing") if len(free) > 1 else "missing"
             inv = {"opts_ok": opts_ok, "help": "help" in flags, "version": "version" in flags,
@@ -132,7 +140,8 @@ def check(report, tier, seed):
         bad_as_hcl = "U" if open(bad_yo, "rb").read().startswith(b"\xff") else "R"
         world = [(files["halting.hcl"], "A", "U", "-"), (files["forever.hcl"], "A", "U", "-"), (files["errstat.hcl"], "A", "U", "-"),
                  (files["aborts.hcl"], "A", "U", "3"), (files["rejected.hcl"], "R", "U", "-"),
-                 (good_yo, "R", "L", "-"), (wrong_ext, "R", "L", "-"), (bad_yo, bad_as_hcl, "U", "-"), (invalid_utf8_yo, "U", "U", "-")]
+                 (good_yo, "R", "L", "-"), (wrong_ext, "R", "L", "-"), (bad_yo, bad_as_hcl, "U", "-")]
+        world += [(pth, "U", "U", "-") for pth in latin]
         world += [(pth, "R", "L", "-") for pth in named.values()]
         entries = " ".join("%s:%s:%s:%s" % (lib.hexs(pth), a_, b_, c_) for pth, a_, b_, c_ in world)
         lines = []
